@@ -4,6 +4,7 @@ import (
 	"context"
 	"errors"
 	"fmt"
+	"sync"
 	"sync/atomic"
 	"time"
 
@@ -38,6 +39,7 @@ type RaftGroup struct {
 	transport         *RaftTransport
 	ctx               context.Context
 	ctxCancel         context.CancelFunc
+	loopWg            sync.WaitGroup
 	processFn         ProcessFn
 	processSnapshotFn ProcessFn
 	snapshotFn        SnapshotFn
@@ -133,6 +135,7 @@ func (this *RaftGroup) Start() error {
 			return err
 		}
 	}
+	this.loopWg.Add(1)
 	go this.run()
 	return nil
 }
@@ -140,6 +143,9 @@ func (this *RaftGroup) Start() error {
 func (this *RaftGroup) Stop() {
 	this.raft.Stop()
 	this.ctxCancel()
+	// Wait for the loop to finish the Ready it may be persisting or applying: the caller is about
+	// to delete or close the log, and a Save that fails in the loop is fatal.
+	this.loopWg.Wait()
 
 	if err := this.transport.removeGroup(this.id); err != nil {
 		this.log.Error(err)
@@ -196,6 +202,8 @@ func (this *RaftGroup) ProposeLeave(nodeId uint64) error {
 }
 
 func (this *RaftGroup) run() {
+	defer this.loopWg.Done()
+
 	ticker := time.NewTicker(100 * time.Millisecond)
 	defer ticker.Stop()
 
